@@ -27,6 +27,7 @@ def gen(seed, idx, tier):
         steps=(3, 25),
         field_kinds=("zero", "const", "ramp", "pw", "sin", "sin"),
         screening=rnd.random() < 0.12,
+        p_remesh=0.25,
     )
     return scn
 
